@@ -87,7 +87,7 @@ def gen_comp(rng, small=False, heavy_ok=True):
         hi = cap if big else min(cap, 14 if small else 40)
         comp[sym] = rng.randint(0 if rng.random() < 0.05 else 1, hi)
     if rng.random() < 0.15:
-        lab = rng.choice(['13C', '15N', 'D', '18O', '2H'])
+        lab = rng.choice(['13C', '15N', 'D', '18O', '2H', 'T', '3H', '17O', '34S', '33S', '37Cl', '81Br'])
         comp[lab] = rng.randint(1, 10)
     frac = rng.random() < 0.2
     if frac:
@@ -240,7 +240,8 @@ def threshold_clause(ctx, st, pt, comp, t, res):
     may = [(m, a) for m, a in full if a >= t * (1 - 1e-9)]
     got = {round(m, 9): a for m, a in cut}
     missing = [(m, a) for m, a in must if round(m, 9) not in got]
-    extra = [m for m in got if m not in {round(mm, 9) for mm, _a in may}]
+    may_keys = {round(mm, 9) for mm, _a in may}
+    extra = [m for m in got if m not in may_keys]
     wrong = [(m, a, got[round(m, 9)]) for m, a in must if round(m, 9) in got and abs(got[round(m, 9)] - a) > 1e-12]
     if missing or extra or wrong:
         ctx.violation('thresholded-pattern-differs-from-pruned-full-pattern',
